@@ -363,6 +363,7 @@ def resolved(ctx, g, name, nodal, tol=1e-11, lmax=None):
     top = float(np.max(np.abs(mod[..., lmax + 1:]))) if mod.size else 0.0
     ctx.table_obligation('H_resolved: ' + name, err <= tol * sc and top <= tol * sc, {'err': err, 'top': top, 'scale': sc, 'lmax': lmax})
     mod[..., lmax + 1:] = 0.0
+    mod[np.abs(mod) < 1e-13 * float(np.max(np.abs(mod)) if mod.size else 0.0)] = 0.0     # analysis rounding noise of absent modes
     return mod
 
 
@@ -520,7 +521,7 @@ def r_pe_rest(ctx, a):
     c = dyn.coords(g, b)
     rng = np.random.default_rng([a['seed'], 5])
     oro = dyn.modal_field(rng, g, (), degree=g.total_wavenumbers - 2, amp=a['oro_amp'], denom=64)
-    T0 = float(a['T0']); q0 = float(a.get('q0', 0.0)) if kind != 'dry' else 0.0
+    T0 = float(a['T0']); q0 = float(a.get('q0', 0.0)) if kind in ('moist', 'cloud') else 0.0
     tref = np.asarray(a['tref'], dtype=np.float64) if a.get('tref') else np.full(K, T0)
     one = one_modal(g)
     eps = specs.R_vapor / specs.R - 1
@@ -593,7 +594,7 @@ def r_pe_solid_body(ctx, a):
     kind = a['kind']; specs = specs_of(a['consts']); b = a['b']; K = len(b) - 1
     g, x, y, z = grid_of(a['grid'], a.get('radius')); xyz = (x, y, z)
     c = dyn.coords(g, b); rad = float(g.radius); Om = specs.angular_velocity; R = specs.R
-    eps = specs.R_vapor / R - 1; q0 = float(a.get('q0', 0.0)) if kind != 'dry' else 0.0
+    eps = specs.R_vapor / R - 1; q0 = float(a.get('q0', 0.0)) if kind in ('moist', 'cloud') else 0.0
     Uk = np.asarray(a['U'], dtype=np.float64); Tbar = np.asarray(a['Tbar'], dtype=np.float64); tref = np.asarray(a['tref'], dtype=np.float64)
     need = -(Uk ** 2 / 2 + rad * Om * Uk)                     # coefficient of mu^2 in R Tv lnps + Phi_k
     mu2 = Z * Z
@@ -608,7 +609,7 @@ def r_pe_solid_body(ctx, a):
     lnps = mu2 * beta + float(a['c']); oro = mu2 * gam
     st = dict(psi=psi, chi=chi, T=T, lnps=lnps, oro=oro)
     tracers = {}
-    if kind != 'dry': st['q'] = [Fn.const(q0)] * K; tracers[QN] = st['q']
+    if kind in ('moist', 'cloud'): st['q'] = [Fn.const(q0)] * K; tracers[QN] = st['q']
     if kind == 'cloud': st['qc'] = [Fn.const(0.0)] * K; st['qi'] = st['qc']; tracers[QC] = st['qc']; tracers[QI] = st['qc']
     st['tracers'] = tracers
     p = dict(a=rad, Omega=Om, R=R, kappa=specs.kappa, g=specs.g, b=b, Rv=specs.R_vapor, Cpv=specs.Cp_vapor, Cp=specs.Cp, kind=kind, Tref=tref)
